@@ -161,6 +161,16 @@ Fixpoint mon_evs (m : mst) (d : dgram) (l : list ev) : mst * list obs * list obs
       (m2, i1 ++ i2, r1 ++ r2)
   end.
 
+(* arrivals back to back: the rule applied arrival by arrival *)
+Fixpoint mon_seq (m : mst) (l : list (N * dgram)) : mst * list obs :=
+  match l with
+  | [] => (m, [])
+  | (p, d) :: r =>
+      let '(m1, i1) := mon_inbound m p d in
+      let '(m2, i2) := mon_seq m1 r in
+      (m2, i1 ++ i2)
+  end.
+
 Definition blank (o : obs) : obs :=
   match o with
   | OInvoke cb e f r _ re rf data => OInvoke cb e f r 0 re rf data
@@ -200,6 +210,9 @@ Definition mon (m : mst) (o : op) (out : list obs) : mst * verdict :=
       end
   | Inbound p d =>
       let '(m1, inv) := mon_inbound m p d in
+      (m1, check (same_multiset eqb_obs_invoke inv (filter is_invoke out)) CL_INVOKE)
+  | SeqArrive l =>
+      let '(m1, inv) := mon_seq m l in
       (m1, check (same_multiset eqb_obs_invoke inv (filter is_invoke out)) CL_INVOKE)
   | ParArrive ps d late pf =>
       let '(m1, inv, rets) := mon_evs m d (par_events ps late pf) in
